@@ -3,6 +3,7 @@
 package vh
 
 import (
+	"encoding/json"
 	"net/http"
 	"net/url"
 )
@@ -12,4 +13,12 @@ func verifMoveCookies(dst, src *http.Request) {
 	for _, c := range src.Cookies() {
 		dst.AddCookie(c)
 	}
+}
+
+func verifJSONCopy(dst, src any) error {
+	b, err := json.Marshal(src)
+	if err != nil {
+		return err
+	}
+	return json.Unmarshal(b, dst)
 }
